@@ -1,6 +1,6 @@
 #!/usr/bin/python3
 """Run all quick checks against behaviour-preserving refactorings delivered by sub-agents.
-usage: refactor_eval.py <NAME> <WT>   (reads /tmp/wt-out/R/<NAME>/R*.patch.diff, worktree /tmp/wt/<WT> for the suite)
+usage: [ROUND=R2] refactor_eval.py <NAME> <WT>   (reads /tmp/wt-out/$ROUND/<NAME>/R*.patch.diff, ROUND defaults to R, worktree /tmp/wt/<WT> for the suite)
 Every check must stay silent; results go to /verif/selftest/refactors/<NAME>-<Rk>/{patch.diff,meta.json}."""
 import glob
 import json
@@ -11,7 +11,8 @@ import sys
 import tempfile
 
 NAME, WT = sys.argv[1], sys.argv[2]
-out = "/tmp/wt-out/R/%s" % NAME
+ROUND = os.environ.get("ROUND", "R")
+out = "/tmp/wt-out/%s/%s" % (ROUND, NAME)
 wt = "/tmp/wt/%s" % WT
 env = dict(os.environ, CARGO_NET_OFFLINE="true")
 for patch in sorted(glob.glob(out + "/R*.patch.diff")):
@@ -38,7 +39,7 @@ for patch in sorted(glob.glob(out + "/R*.patch.diff")):
                 fired[pid] = [l.strip()[:500] for l in q.stdout.split("\n") if l.startswith("  rule")][:4]
     finally:
         shutil.rmtree(S, ignore_errors=True)
-    d = "/verif/selftest/refactors/%s-%s" % (NAME, X)
+    d = "/verif/selftest/refactors/%s-%s%s" % (NAME, "" if ROUND == "R" else ROUND.lower() + "-", X)
     os.makedirs(d, exist_ok=True)
     shutil.copy(patch, os.path.join(d, "patch.diff"))
     json.dump({"region": NAME, "summary": meta_in.get("summary"), "why_equivalent": meta_in.get("why_equivalent"),
